@@ -29,6 +29,8 @@ type Tokenizer struct {
 	mi        int
 	num       gen.Number
 	rn        rune
+	hi        rune // pending high surrogate of a \u escape
+	hiEnd     int  // len(tmp) right after that escape
 	mode      string
 	nextMode  string
 }
@@ -62,6 +64,7 @@ func (t *Tokenizer) Parse(buf []byte, handler TokenHandler) (err error) {
 		t.starts = make([]byte, 0, 16)
 	} else {
 		t.tmp = t.tmp[:0]
+		t.hi = 0
 		t.starts = t.starts[:0]
 	}
 	t.noff = -1
@@ -90,6 +93,7 @@ func (t *Tokenizer) Load(r io.Reader, handler TokenHandler) (err error) {
 		t.starts = make([]byte, 0, 16)
 	} else {
 		t.tmp = t.tmp[:0]
+		t.hi = 0
 		t.starts = t.starts[:0]
 	}
 	t.noff = -1
@@ -371,6 +375,7 @@ func (t *Tokenizer) tokenizeBuffer(buf []byte, last bool) error {
 			t.mode = expSignMap
 			continue
 		case strQuote:
+			t.hi = 0
 			t.mode = t.nextMode
 			if t.nextMode == colonMap {
 				t.handler.Key(string(t.tmp))
@@ -424,8 +429,23 @@ func (t *Tokenizer) tokenizeBuffer(buf []byte, last bool) error {
 				if len(t.runeBytes) < 6 {
 					t.runeBytes = make([]byte, 6)
 				}
-				n := utf8.EncodeRune(t.runeBytes, t.rn)
+				rn := t.rn
+				switch {
+				case 0xDC00 <= rn && rn <= 0xDFFF && t.hi != 0 && t.hiEnd == len(t.tmp):
+					// The low half of a surrogate pair directly after the high
+					// half. Together they are one code point so take back the
+					// replacement character written for the high half.
+					t.tmp = t.tmp[:len(t.tmp)-3]
+					rn = 0x10000 + (t.hi-0xD800)<<10 + (rn - 0xDC00)
+					t.hi = 0
+				case 0xD800 <= rn && rn <= 0xDBFF:
+					t.hi = rn
+				default:
+					t.hi = 0
+				}
+				n := utf8.EncodeRune(t.runeBytes, rn)
 				t.tmp = append(t.tmp, t.runeBytes[:n]...)
+				t.hiEnd = len(t.tmp)
 				t.mode = stringMap
 			}
 			continue
